@@ -304,11 +304,12 @@ theorem fallthrough_mono (e a : Bytes) :
 
 theorem relHit_mono (rel : Bytes) (h : relHit genTabs rel = true) : relHit revTabs rel = true := by
   unfold relHit at *
-  rw [List.any_eq_true] at *
-  obtain ⟨v, hv, hc⟩ := h
-  refine ⟨v, hv, ?_⟩
-  have := List.all_eq_true.mp ob_rel v (by simpa using hc)
-  exact this
+  rw [Bool.and_eq_true] at *
+  refine ⟨h.1, ?_⟩
+  rw [List.all_eq_true] at *
+  intro v hv
+  have hc := h.2 v hv
+  exact List.all_eq_true.mp ob_rel v (by simpa using hc)
 
 /-- **C04 (attribute values).** For every element name, attribute name and rel value, the verdict of the
     regenerated policy is at least as strict as the reviewed verdict (refusal being the strictest). -/
@@ -383,12 +384,16 @@ theorem model_attr_eq (e a rel : Bytes) :
   have hhref : hrefName = hrefB := rfl
   rw [hlink, hhref]
   by_cases h1 : (e == linkB && a == hrefB &&
-      (fields rel).any fun v => memKey Generated.Policy.urlLinkRelVals v) = true
+      (!(fields rel).isEmpty && (fields rel).all fun v => memKey Generated.Policy.urlLinkRelVals v)) = true
   · simp only [h1, if_true]
     simp only [Bool.and_eq_true] at h1
     simp [h1.1.1, h1.1.2, h1.2]; rfl
   · have h1' : (e == linkB && a == hrefB &&
-        (fields rel).any fun v => memKey Generated.Policy.urlLinkRelVals v) = false := by simpa using h1
+        (!(fields rel).isEmpty && (fields rel).all fun v => memKey Generated.Policy.urlLinkRelVals v)) = false := by
+      cases hx : (e == linkB && a == hrefB &&
+        (!(fields rel).isEmpty && (fields rel).all fun v => memKey Generated.Policy.urlLinkRelVals v)) with
+      | false => rfl
+      | true => exact absurd hx h1
     simp only [h1', Bool.false_eq_true, if_false]
     by_cases hd : Rx.matchString Generated.Regexes.template_dataAttributeNamePattern a = true
     · simp [hd]; rfl
